@@ -19,6 +19,31 @@ use similari::utils::clipping::bbox_own_areas::{
 use similari::utils::clipping::sutherland_hodgman_clip;
 use similari_verif_harness::*;
 use std::f32::consts::PI;
+use std::sync::Mutex;
+
+/// where the last panic came from (file:line of the panic site), recorded by the panic hook
+static LAST_PANIC: Mutex<String> = Mutex::new(String::new());
+
+fn record_panics() {
+    std::panic::set_hook(Box::new(|info| {
+        let loc = info
+            .location()
+            .map(|l| {
+                let f = l.file();
+                let short = f.rsplit("registry/src/").next().unwrap_or(f);
+                let short = short.splitn(2, '/').nth(1).unwrap_or(short);
+                format!("{}:{}", short, l.line())
+            })
+            .unwrap_or_else(|| "?".to_string());
+        if let Ok(mut g) = LAST_PANIC.lock() {
+            *g = loc;
+        }
+    }));
+}
+
+fn last_panic() -> String {
+    LAST_PANIC.lock().map(|g| g.clone()).unwrap_or_default().replace(' ', "_")
+}
 
 #[derive(Clone, Copy, Debug)]
 struct B {
@@ -612,7 +637,7 @@ fn eval_set(k: usize, cfg: &str, boxes: &[B], rng: &mut Rng, sample: bool) {
         boxes.iter().map(|b| coords(&b.ub().get_vertices())).collect::<Vec<_>>().join(";")
     );
     match shares_of(boxes) {
-        None => line += " res=P own=P",
+        None => line += &format!(" res=P own=P panic={}", last_panic()),
         Some((sh, own)) => {
             line += &format!(
                 " res={} own={}",
@@ -656,7 +681,10 @@ fn eval_set(k: usize, cfg: &str, boxes: &[B], rng: &mut Rng, sample: bool) {
     for p in &perms {
         let pb: Vec<B> = p.iter().map(|i| boxes[*i]).collect();
         let r = match shares_of(&pb) {
-            None => "P".to_string(),
+            None => {
+                line += &format!(" panic={}", last_panic());
+                "P".to_string()
+            }
             Some((sh, _)) => sh.iter().map(|x| f32b(*x)).collect::<Vec<_>>().join(","),
         };
         ps.push(format!("{}>{}", p.iter().map(|i| i.to_string()).collect::<Vec<_>>().join(""), r));
@@ -809,7 +837,7 @@ fn pick_cfg<'a>(rng: &mut Rng, table: &[(&'a str, u64)]) -> &'a str {
 }
 
 fn main() {
-    quiet_panics();
+    record_panics();
     let a = parse_args();
     let mut rng = Rng::new(a.seed);
     match a.cmd.as_str() {
